@@ -10,7 +10,7 @@ IMPORTS = "From Coq Require Import ZArith QArith List.\nImport ListNotations.\nF
 RULE = ("grid: every level k/1000 x reporting counts n from minimum-1 upwards (quick: +60 and 5 large n; thorough: +4000), "
         "implementation minimum / training fraction compared with the exact-rational model inside Coq and the split-validity "
         "predicate evaluated on the implementation's own numbers; end-to-end: get_estimates with exactly minimum-1, minimum, "
-        "minimum+1.. modelled reporting units per estimator and level set (outcome vs the gate model), duplicate reporting ids. "
+        "minimum+1.. modelled reporting units per estimator and level set (outcome vs the gate model), duplicate reporting ids (a repeated feed row; the same id reporting in two states). "
         "distinct = distinct (estimator, levels, n - minimum, outcome) for end-to-end runs plus distinct (level) grid rows; "
         "non-trivial = n within 12 of the minimum or a grid row whose minimum >= 2")
 
@@ -23,7 +23,14 @@ def e2e_case(alphas, n_rep, pi, seed, n_non=5, dup=False, features=None):
     feed = []
     for i, b in enumerate(base):
         feed.append(gen.live_row(rng, b, 100 if i < n_rep else 40))
-    if dup and feed:
+    if dup == "state" and feed:
+        # the same unit id reporting in a second state of the run (ids are only unique within a state in some feeds)
+        b2 = dict(base[0], postal_code="BB")
+        base.append(b2)
+        c["baseline"] = base
+        c["states"] = sorted(set(c["states"]) | {"BB"})
+        feed.append(gen.live_row(rng, b2, 100))
+    elif dup and feed:
         feed.append(dict(feed[0]))
     c["feed"] = feed
     est = ["margin"] if pi == "bootstrap" else ["turnout"]
@@ -146,6 +153,9 @@ def run(chk):
     jobs.append(([0.7], 12, "nonparametric", 5, True))
     jobs.append(([0.7], 12, "gaussian", 6, True))
     jobs.append(([0.9], 12, "nonparametric", 7, True))  # too few AND duplicate: gate first
+    jobs.append(([0.7], 12, "nonparametric", 8, "state"))
+    jobs.append(([0.7], 12, "gaussian", 9, "state"))
+    jobs.append(([0.7], 14, "bootstrap", 10, "state"))
     outs = core.pmap(_run_e2e, jobs)
     exprs = []
     for o in outs:
@@ -162,7 +172,7 @@ def run(chk):
         o["oc"] = oc
         nn = n + (1 if dup else 0)
         o["mins"] = mins
-        exprs.append(f"check_gate {zlit(nn)} {llit([qlit(m) for m in mins])} {core.blit(dup)} {oc or 'Runs'}")
+        exprs.append(f"check_gate {zlit(nn)} {llit([qlit(m) for m in mins])} {core.blit(bool(dup))} {oc or 'Runs'}")
     res, errs = core.coq_eval("C14", IMPORTS, exprs, tag="e2e")
     for o, r in zip(outs, res):
         alphas, n, pi, seed, dup = o["job"][:5]
